@@ -9,7 +9,7 @@ A_COMMON = [
     'engine: AST->SMT translation of the Python subset and of the contract language (cross-checked by the run-time '
     'reading of the same clauses on the real functions, not proved)',
     'engine: quantifier instantiation is explicit (sound, incomplete); sum/unfold/extensionality schemas are trusted',
-    'solvers: z3 5.1 (in process), /usr/bin/z3 4.8.12 as second back end',
+    'solvers: z3 5.1 (in process), /usr/bin/z3 4.8.12 and /usr/bin/cvc5 1.0.3 as further back ends (an unsat answer of any of them discharges an obligation; sat answers of the external solvers are never used)',
 ]
 
 CU = 'pygyro/splines/cubic_uniform_spline_eval_funcs.py'
@@ -256,6 +256,7 @@ PROPS = {
         level='other',
         contracts=[],
         functions=[],
+        case_functions=[dict(module='vf.contracts.collocation', key='pygyro/splines/spline_interpolators.py::SplineInterpolator1D.collocation_matrix')],
         bounded=[dict(module='vf.rt.bounded_splines', prop='C08',
                       bound='degrees 1-5 (thorough 1-D up to 8), 1..12 cells (thorough up to 33), clamped/periodic, uniform/non-uniform/'
                             'uniform-cubic, six domains; 1-D: S(x_i)=u_i (oracle, scalar and vector evaluation), badly scaled / spike / '
